@@ -52,19 +52,38 @@ class SpecError(Exception):
 
 
 def _tok_regex(text):
-    """whitespace-insensitive regex for a piece of Rust source text"""
-    toks = re.findall(r"[A-Za-z_][A-Za-z0-9_]*|\d[\dA-Za-z_]*|'[A-Za-z_]\w*|\S", text)
+    """whitespace-insensitive regex for a piece of Rust source text; `$name` is a hole that matches
+    any (bracket-balanced, checked by the caller) text and can be used in the replacement"""
+    toks = re.findall(r"\$[A-Za-z_]\w*|[A-Za-z_][A-Za-z0-9_]*|\d[\dA-Za-z_]*|'[A-Za-z_]\w*|\S", text)
     out = []
     for i, t in enumerate(toks):
-        out.append(re.escape(t))
+        if t.startswith("$"):
+            out.append(r"(?P<%s>.+?)" % t[1:])
+        else:
+            out.append(re.escape(t))
         if i + 1 < len(toks):
             a, b = t, toks[i + 1]
+            if a.startswith("$") or b.startswith("$"):
+                out.append(r"\s*")
             # identifiers/numbers that were separated must stay separated
-            if re.match(r"[\w']", a[-1]) and re.match(r"\w", b[0]):
+            elif re.match(r"[\w']", a[-1]) and re.match(r"\w", b[0]):
                 out.append(r"\s+")
             else:
                 out.append(r"\s*")
     return "".join(out)
+
+
+def _balanced(t):
+    m = rsrc.mask(t)
+    d = 0
+    for ch in m:
+        if ch in "([{":
+            d += 1
+        elif ch in ")]}":
+            d -= 1
+            if d < 0:
+                return False
+    return d == 0
 
 
 def _bt_pair(s):
@@ -233,20 +252,103 @@ def _nest(ops, blk):
     return inner
 
 
+def _split_pattern(text):
+    """pattern -> list of ('lit', compiled regex) / ('hole', name)"""
+    parts = re.split(r"(\$[A-Za-z_]\w*)", text)
+    out = []
+    for p in parts:
+        if not p.strip():
+            continue
+        if p.startswith("$"):
+            out.append(("hole", p[1:]))
+        else:
+            out.append(("lit", re.compile(r"\s*" + _tok_regex(p.strip()) + r"\s*", re.S)))
+    return out
+
+
+def _match_at(parts, body, masked, pos, k, caps):
+    """match parts[k:] at body[pos:]; holes capture bracket-balanced text (shortest first)"""
+    if k == len(parts):
+        return pos
+    kind, val = parts[k]
+    if kind == "lit":
+        m = val.match(body, pos)
+        if not m:
+            return None
+        return _match_at(parts, body, masked, m.end(), k + 1, caps)
+    # hole: try every end position (shortest first) where the capture is balanced
+    depth = 0
+    end = pos
+    n = len(body)
+    while end <= n:
+        if end > pos and depth == 0:
+            caps[val] = body[pos:end]
+            r = _match_at(parts, body, masked, end, k + 1, caps)
+            if r is not None:
+                return r
+        if end == n:
+            break
+        ch = masked[end]
+        if ch in "([{":
+            depth += 1
+        elif ch in ")]}":
+            depth -= 1
+            if depth < 0:
+                return None
+        elif ch == ";" and depth == 0:
+            # a hole never spans a statement boundary
+            caps[val] = body[pos:end]
+            return _match_at(parts, body, masked, end, k + 1, caps) if end > pos else None
+        end += 1
+    return None
+
+
+def _find_pattern(parts, body, start=0):
+    masked = rsrc.mask(body)
+    if parts[0][0] != "lit":
+        raise SpecError("a pattern must not start with a hole")
+    first = parts[0][1]
+    pos = start
+    while True:
+        m = first.search(body, pos)
+        if not m:
+            return None
+        s0 = m.start() + (len(m.group(0)) - len(m.group(0).lstrip()))
+        caps = {}
+        e = _match_at(parts, body, masked, m.start(), 0, caps)
+        if e is not None:
+            # trim trailing whitespace swallowed by the last literal
+            while e > s0 and body[e - 1] in " \t\n":
+                e -= 1
+            return s0, e, caps
+        pos = m.start() + 1
+
+
 def _apply_subst(body, ex, gen, fn_disp):
     for oid, src_t, repl, kind in ex.outlines:
-        rx = re.compile(_tok_regex(src_t))
-        ms = list(rx.finditer(body))
-        if not ms:
+        parts = _split_pattern(src_t)
+        pos, n = 0, 0
+        while True:
+            f = _find_pattern(parts, body, pos)
+            if not f:
+                break
+            s0, e, caps = f
+            if n == 0:
+                ex.matched[oid] = body[s0:e]
+            n += 1
+            r = repl
+            for k, v in caps.items():
+                r = r.replace("$" + k, v.strip())
+            body = body[:s0] + r + body[e:]
+            pos = s0 + len(r)
+        if n == 0:
             raise LostAnchor("%s: %s %s text not found: `%s`" % (fn_disp, kind, oid, src_t[:80]))
-        ex.matched[oid] = ms[0].group(0)
-        body = rx.sub(lambda _m: repl, body)
         if kind == "outline":
-            gen.outlines.append((oid, re.sub(r"\s+", " ", src_t)))
+            gen.outlines.append((oid, re.sub(r"\s+", " ", ex.matched[oid])))
             gen.drops.append("%s: outlined expression %s `%s` -> `%s` (assumed contract on the helper)" %
-                             (fn_disp, oid, re.sub(r"\s+", " ", src_t)[:100], repl))
+                             (fn_disp, oid, re.sub(r"\s+", " ", ex.matched[oid])[:100], repl))
         else:
-            gen.drops.append("%s: rewrite %s `%s` -> `%s`" % (fn_disp, oid, re.sub(r"\s+", " ", src_t)[:100], repl))
+            gen.drops.append("%s: rewrite %s `%s` -> `%s`" % (fn_disp, oid, re.sub(r"\s+", " ", ex.matched[oid])[:100], repl))
     return body
 
 
@@ -456,8 +558,9 @@ def expand(template_path, tree):
             last = len(out_lines)
             gen.functions.append(fn_disp)
             gen.fn_lines[fn_disp] = (first, last)
-            if any(cl.kind == "requires" and cl.loop is None for cl in ex.clauses):
-                gen.canary_fns.append(fn_disp)
+            # every extracted function gets an `ensures false` canary: it guards against a
+            # contradictory `requires` AND against contradictory assumed contracts on helpers
+            gen.canary_fns.append(fn_disp)
             for cl in ex.clauses:
                 gen.clauses.append((cl.id, cl.kind, cl.expr))
         else:
